@@ -465,6 +465,8 @@ pub struct C11Run {
     pub executions: usize,
     pub steps: usize,
     pub table_policies: BTreeMap<&'static str, usize>,
+    /// one digest per execution configuration (schedule: script shape, callers, policy, reuse)
+    pub schedules: Vec<u64>,
 }
 
 fn ordering_violation(o: &Outcome) -> Option<(String, String)> {
@@ -547,6 +549,7 @@ pub fn run(s: &C11Scenario) -> C11Run {
     let mut steps = 0usize;
     let mut table_policies: BTreeMap<&'static str, usize> = BTreeMap::new();
     let mut caller_sets: Vec<std::rc::Rc<Callers>> = Vec::new();
+    let mut schedules: Vec<u64> = Vec::new();
     for (ei, e) in s.execs.iter().enumerate() {
         let callers = match e.reuse_threads_of {
             Some(of) if of < ei => caller_sets[of].clone(),
@@ -558,6 +561,13 @@ pub fn run(s: &C11Scenario) -> C11Run {
             if e.warmup >= 64 {
                 probes.thread_reuse_after_64_contents = true;
             }
+        }
+        {
+            let mut d = Digest::new();
+            d.str(&script_str(&e.script));
+            d.str(&format!("{:?}", e.callers));
+            d.str(&format!("{:?} {} {:?} {}", e.policy, e.repeats, e.reuse_threads_of, e.warmup));
+            schedules.push(d.finish());
         }
         let o = execute(&texts, &alt_texts, e, &callers);
         steps += e.script.len() + 1 + e.repeats;
@@ -682,6 +692,7 @@ pub fn run(s: &C11Scenario) -> C11Run {
         executions: s.execs.len(),
         steps,
         table_policies,
+        schedules,
     }
 }
 
